@@ -18,7 +18,8 @@ Inductive event := Recv (t : Z) (from : addr) (d : list N).
 Inductive pkt :=
 | PData (blk : N) (payload : list N)
 | POack (opts : list (list N * list N))
-| PError (code : N).
+| PError (code : N)
+| PMalformed (raw : list N).   (* never sent by the model: a datagram of the implementation that is no well-formed DATA/OACK/ERROR *)
 
 Inductive tr :=
 | TSend (t : Z) (to : addr) (p : pkt)
